@@ -5,7 +5,7 @@ CONSTANTS
   Targets = {1,2,3}
   AliasTargets = {}
   MaxNum = 3
-  MaxOps = 8
+  MaxOps = 100
   Known = {}
 VIEW View
 INVARIANT Inv
